@@ -809,6 +809,80 @@ for cls, f in (("Buffer", "edges/buffer.py"), ("Fleet", "edges/fleet.py")):
         frag("%s_%s_delegates" % (cls, meth), f, lambda t, c=cls, m=meth: delegates(t, c, m), "true", kind="const")
 
 
+# ---------------------------------------------------------------- the push helpers: reserve, wait, put THE item
+def push_shape(tree, cls):
+    """<cls>._push_item(self, ITEM, EDGE): in every class-name branch the statements that matter are exactly
+         TOKEN = EDGE.reserve_put();  [x =] yield TOKEN;  [y =] EDGE.put(TOKEN | x, ITEM)
+    in this order (prints, `outstore = out_edge`, stamps on ITEM and `if y: print` aside) -- no probe, no cancellation, no other
+    item, no early return: the model's push process is reserve / wait / put of the item it was started with."""
+    fn = find(tree, cls, "_push_item")
+    args = [a.arg for a in fn.args.args]
+    if len(args) != 3:
+        raise Unsupported("%s._push_item takes %s" % (cls, args))
+    ITEM, EDGE = args[1], args[2]
+
+    def branch(stmts):
+        alias, tok, waited, seq = {EDGE}, None, {None}, []
+        for st in stmts:
+            src = ast.unparse(st)
+            if isinstance(st, ast.Expr) and isinstance(st.value, ast.Constant):
+                continue
+            if isinstance(st, ast.Expr) and isinstance(st.value, ast.Call) and getattr(st.value.func, "id", "") == "print":
+                continue
+            if isinstance(st, ast.Assign) and len(st.targets) == 1 and isinstance(st.targets[0], ast.Name) and ast.unparse(st.value) in alias:
+                alias.add(st.targets[0].id)
+                continue
+            if isinstance(st, ast.Assign) and len(st.targets) == 1 and isinstance(st.targets[0], ast.Attribute) \
+                    and ast.unparse(st.targets[0].value) == ITEM and not any(isinstance(n, ast.Call) and ast.unparse(n.func.value) in alias
+                                                                             for n in ast.walk(st.value) if isinstance(n, ast.Call) and isinstance(n.func, ast.Attribute)):
+                continue                                        # a stamp on the item
+            if isinstance(st, ast.Expr) and isinstance(st.value, ast.Call) and isinstance(st.value.func, ast.Attribute) \
+                    and ast.unparse(st.value.func.value) == ITEM and st.value.func.attr in ("update_node_event", "set_creation"):
+                continue
+            if isinstance(st, ast.Assign) and len(st.targets) == 1 and isinstance(st.targets[0], ast.Name) and isinstance(st.value, ast.Call) \
+                    and isinstance(st.value.func, ast.Attribute) and ast.unparse(st.value.func.value) in alias and st.value.func.attr == "reserve_put" \
+                    and not st.value.args:
+                tok = st.targets[0].id
+                seq.append("R")
+                continue
+            y = st.value if isinstance(st, (ast.Expr, ast.Assign)) else None
+            if isinstance(y, ast.Yield) and tok and ast.unparse(y.value) == tok:
+                if isinstance(st, ast.Assign):
+                    waited.add(st.targets[0].id)
+                waited.add(tok)
+                seq.append("Y")
+                continue
+            if isinstance(y, ast.Call) and isinstance(y.func, ast.Attribute) and ast.unparse(y.func.value) in alias and y.func.attr == "put":
+                if len(y.args) == 2 and ast.unparse(y.args[0]) in waited - {None} and ast.unparse(y.args[1]) == ITEM:
+                    seq.append("P")
+                    continue
+                raise Unsupported("%s._push_item puts %s" % (cls, ast.unparse(y)))
+            if isinstance(st, ast.If) and isinstance(st.test, ast.Name) and not st.orelse and \
+                    all(isinstance(b, ast.Expr) and isinstance(b.value, ast.Call) and getattr(b.value.func, "id", "") == "print" for b in st.body):
+                continue                                        # `if y: print(...)`
+            raise Unsupported("%s._push_item: %s" % (cls, src[:90]))
+        return seq == ["R", "Y", "P"]
+
+    body = [st for st in fn.body if not (isinstance(st, ast.Expr) and isinstance(st.value, ast.Constant))]
+    oks = []
+
+    def walk(stmts):
+        if len(stmts) == 1 and isinstance(stmts[0], ast.If) and "__class__.__name__" in ast.unparse(stmts[0].test):
+            oks.append(branch(stmts[0].body))
+            if stmts[0].orelse:
+                if all(isinstance(x, ast.Raise) for x in stmts[0].orelse):
+                    return
+                walk(stmts[0].orelse)
+            return
+        oks.append(branch(stmts))
+    walk(body)
+    return "true" if oks and all(oks) else "false"
+
+
+for cls, f in (("Source", "nodes/source.py"), ("Machine", "nodes/machine.py"), ("Splitter", "nodes/splitter.py"), ("Combiner", "nodes/combiner.py")):
+    frag("%s_push_item_shape" % cls, f, lambda t, c=cls: push_shape(t, c), "true", kind="const")
+
+
 def belt_gate(tree):
     return GTr().grants(find(tree, "BeltStore", "_do_reserve_put").body)
 
